@@ -150,11 +150,89 @@ def do_replay(ctx, pool, path, quiet=False):
 
 # ----------------------------------------------------------------------------- main
 
+def probe_detached_sends():
+    """Directed family (asyncio): a sender issues `c1 = sm.send(..)` and, *before awaiting it*, awaits a second
+    send; other tasks send concurrently; callbacks yield 0-2 times. An event is accepted when `send` is called:
+    each sender's events are processed in the order it sent them, exactly once, nothing stranded."""
+    import asyncio
+    import warnings
+    from statemachine import State, StateMachine
+    fails, cases = [], 0
+    for y_on in (0, 1, 2):
+        for y_after in (0, 1):
+            for delay_b in (0, 1, 2):
+                for third in (False, True):
+                    log = []
+
+                    class D(StateMachine):
+                        s0 = State(initial=True)
+                        s1 = State()
+                        go = s0.to(s1) | s1.to(s0)
+
+                        async def on_go(self, uid=None):
+                            log.append(("B", uid))
+                            for _ in range(y_on):
+                                await asyncio.sleep(0)
+                            log.append(("E", uid))
+
+                        async def after_go(self, uid=None):
+                            for _ in range(y_after):
+                                await asyncio.sleep(0)
+
+                    async def main():
+                        sm = D()
+                        await sm.activate_initial_state()
+
+                        async def a():
+                            c1 = sm.send("go", uid="a1")      # accepted now
+                            await sm.send("go", uid="a2")
+                            await c1
+
+                        async def b():
+                            for _ in range(delay_b):
+                                await asyncio.sleep(0)
+                            await sm.send("go", uid="b1")
+                            if third:
+                                c = sm.send("go", uid="b2")
+                                await sm.send("go", uid="b3")
+                                await c
+                        await asyncio.gather(a(), b())
+                        return len(sm._engine._external_queue) if hasattr(sm._engine, "_external_queue") else 0
+                    with warnings.catch_warnings():
+                        warnings.simplefilter("ignore")
+                        try:
+                            left = asyncio.run(main())
+                        except Exception as e:
+                            fails.append(f"yields on={y_on} after={y_after} delay={delay_b}: {type(e).__name__}: {e}")
+                            continue
+                    cases += 1
+                    begun = [u for k, u in log if k == "B"]
+                    want = ["a1", "a2", "b1"] + (["b2", "b3"] if third else [])
+                    what = f"yields on={y_on} after={y_after} delay_b={delay_b} third={third}: processed {begun}"
+                    if sorted(begun) != sorted(want):
+                        fails.append(what + f", sent {want} (exactly once)")
+                    elif [u for u in begun if u[0] == "a"] != ["a1", "a2"] or \
+                            [u for u in begun if u[0] == "b"] != [u for u in want if u[0] == "b"]:
+                        fails.append(what + " — a sender's events out of the order it sent them")
+                    elif left:
+                        fails.append(what + f", {left} left in the queue")
+                    else:
+                        for i in range(0, len(log), 2):
+                            if log[i][0] != "B" or log[i + 1] != ("E", log[i][1]):
+                                fails.append(what + f" — callback sequences overlap: {log}")
+                                break
+    return cases, fails
+
+
 def run(ctx):
     lean_obligations(ctx)
     b = subprocess.run(["lake", "build", "drv_protocol"], cwd=LEAN, capture_output=True, text=True)
     if b.returncode != 0:
         raise RuntimeError("drv_protocol does not build: " + (b.stdout + b.stderr)[-800:])
+    ncases, pf = probe_detached_sends()
+    ctx.coverage["detached_send_cases"] = ncases
+    if pf:
+        ctx.violation(ctx.write_replay("detached_sends.txt", "\n".join(pf[:12]) + "\n"), pf[0])
     procs = min(16, os.cpu_count() or 4)
     pool = make_pool(procs)
     try:
